@@ -95,6 +95,45 @@ def _no_store_condition_ok(ctx, fi, field, new_param, old_attr):
     return stores
 
 
+def _negative_label_index(ctx, ana, upd, b, labels):
+    """Labels range from -1 (not labelled) to K-1.  A dict keyed by label files the unlabelled points under -1, where nobody looks; a
+    *list* subscripted by a label files them in the last bucket (negative indices wrap), so cluster K-1 gains members that do not
+    carry its label.  Evidence: wrong wherever it occurs."""
+    cfg_u = ana.cfg(upd)
+    saved, ctx.evidence = ctx.evidence, True
+    try:
+        for n in Resolver.walk_own(upd.node):
+            if not (isinstance(n, ast.Subscript) and isinstance(n.value, ast.Name)):
+                continue
+            defs = [a for a in Resolver.walk_own(upd.node) if isinstance(a, ast.Assign) and any(isinstance(t, ast.Name) and t.id == n.value.id for t in a.targets)]
+            is_list = bool(defs) and all(isinstance(a.value, (ast.ListComp, ast.List)) or (isinstance(a.value, ast.BinOp) and isinstance(a.value.op, ast.Mult)
+                                         and (isinstance(a.value.left, ast.List) or isinstance(a.value.right, ast.List))) for a in defs)
+            if not is_list:
+                continue
+            node = cfg_u.node_of(n)
+            try:
+                it = b.term(n.slice, node)
+            except Exception:
+                continue
+            if not (isinstance(it, Idx) and it.base == labels):
+                continue
+            nonneg = {tm.compare(">=", it, 0).key, tm.compare(">", it, -1).key, tm.compare("!=", it, -1).key}
+            gs = set()
+            for t_, pol, owner in cfg_u.guards(node):
+                try:
+                    g = b.term(t_, cfg_u.stmt_node[id(owner)])
+                except Exception:
+                    continue
+                g = g if pol else tm.negate(g)
+                for part in (g.parts if isinstance(g, tm.And) else [g]):
+                    gs.add(part.key)
+            ctx.check(bool(gs & nonneg), upd, f"`{unparse(n)}`: a list is subscripted by a label only where the label is known not to be -1",
+                      line=n.lineno, role=f"refresh:negative-label:{n.value.id}", expected="label >= 0 (or != -1) guards the subscript, or the buckets are a dict",
+                      found="guards: " + (", ".join(sorted(gs)) or "none"))
+    finally:
+        ctx.evidence = saved
+
+
 @rule("C13", "R2", "ORDER", "assigning labels re-derives membership immediately: cluster k gets the sorted indices with label k", floor=6)
 def r2(ctx):
     ana = ctx.ana
@@ -117,6 +156,7 @@ def r2(ctx):
     b = ana.builder(upd, no_inline=ana.known)
     self_ = Sym(upd.params[0])
     labels = Attr(self_, "point_labels")
+    _negative_label_index(ctx, ana, upd, b, labels)
     ss = [s for s in b.stores() if s.attr == "member_points"]
     empties = [s for s in ss if s.value == tm.Lst([])]
     for s in empties:
@@ -322,6 +362,11 @@ def r4(ctx):
             ln = tm.length(t) if not isinstance(t, App) else (tm.length(t.args[0]) if t.fn == "builtins.list" and t.args else None)
             srcs = [x for x in tm.subterms(t) if isinstance(x, Attr) and x.name == "clusters"]
             ok = ln is not None and any(ln == tm.length(s) for s in srcs)
+            if not ok and isinstance(ln, App) and ln.fn == "len" and isinstance(ln.args[0], Sym) and ln.args[0].name in fi.own_params:
+                # as many entries as a list handed in by the caller: fine when every caller hands in one entry per cluster
+                from .common import param_length_at_callers
+                at_callers = param_length_at_callers(ana, fi, ln.args[0].name)
+                ok = bool(at_callers) and all(isinstance(x, Attr) and x.name == "num_clusters" for x in at_callers)
             ctx.check(ok, fi, f"`{unparse(n, 50)}` assigns a cluster list with exactly as many entries as an existing one", line=n.lineno,
                       role=f"K:assign@{short(fi.qualname)}", expected="a 1:1 image of model.clusters", found=str(t)[:140])
     # no structural edit of a cluster list
